@@ -270,6 +270,11 @@ type repCase struct {
 	Cnr          int
 	CnrKnown     bool
 	Sender       int // node index 1..4
+	// Twin: the request is sent (and correctly signed) by the holder of the
+	// NEGATED private key of node Sender: a different key pair whose compressed
+	// public key differs from the member's only in the parity byte. It is not a
+	// container member.
+	Twin bool
 	SenderCur    bool
 	SenderPrev   bool
 	LocalCur     bool
@@ -298,6 +303,7 @@ func genCase(t *rapid.T, real bool) repCase {
 		PayloadLen: rapid.IntRange(0, 40).Draw(t, "payloadLen"),
 		Attrs:      rapid.IntRange(0, 3).Draw(t, "attrs"),
 	}
+	c.Twin = rapid.IntRange(0, 11).Draw(t, "twin") == 0
 	switch rapid.IntRange(0, 9).Draw(t, "senderMembership") {
 	case 0, 1, 2, 3:
 		c.SenderCur = true
@@ -467,6 +473,9 @@ func refinalize(t *rapid.T, m *protoobject.Object) {
 // wellFormed/sigValid describe the result for the oracle.
 func (c repCase) buildRequest(t *rapid.T, m *protoobject.Object) (req *protoobject.ReplicateRequest, sigOK bool) {
 	sender := nodes[c.Sender]
+	if c.Twin {
+		sender = twin(sender)
+	}
 	signer := signerFor(sender.priv, c.Scheme)
 	sig, err := signer.Sign(m.ObjectId.GetValue())
 	if err != nil {
@@ -532,12 +541,25 @@ func (c repCase) buildRequest(t *rapid.T, m *protoobject.Object) (req *protoobje
 	return req, sigOK
 }
 
+func (c repCase) senderMember() bool { return (c.SenderCur || c.SenderPrev) && !c.Twin }
+
 func (c repCase) authorised() bool {
-	return c.CnrKnown && c.LocalCur && (c.SenderCur || c.SenderPrev)
+	return c.CnrKnown && c.LocalCur && c.senderMember()
+}
+
+func twin(n node) node {
+	var k ecdsa.PrivateKey
+	k.Curve = n.priv.Curve
+	k.D = new(big.Int).Sub(n.priv.Params().N, n.priv.D)
+	k.X, k.Y = k.Curve.ScalarBaseMult(k.D.Bytes())
+	return node{priv: k, pub: neofscrypto.PublicKeyBytes((*neofsecdsa.PublicKey)(&k.PublicKey)), id: user.NewFromECDSAPublicKey(k.PublicKey)}
 }
 
 func (c repCase) labels(sigOK bool) []string {
 	ls := []string{"sig:" + c.SigDefect}
+	if c.Twin {
+		ls = append(ls, "sender:twin-key-of-member")
+	}
 	switch {
 	case c.SenderCur && c.SenderPrev:
 		ls = append(ls, "sender:both")
@@ -566,7 +588,7 @@ func (c repCase) labels(sigOK bool) []string {
 // holds or exactly one condition fails.
 func (c repCase) failing(sigOK, objOK bool) int {
 	n := 0
-	for _, b := range []bool{sigOK, c.CnrKnown, c.LocalCur, c.SenderCur || c.SenderPrev, objOK} {
+	for _, b := range []bool{sigOK, c.CnrKnown, c.LocalCur, c.senderMember(), objOK} {
 		if !b {
 			n++
 		}
@@ -616,8 +638,8 @@ func TestC31Replicate(t *testing.T) {
 			t.Fatalf("Replicate returned transport error %v (resp %v) for %+v", err, resp, c)
 		}
 		if got := len(eff.calls); (got == 1) != want || got > 1 {
-			t.Fatalf("storage called %d times, reference says called=%v (signature ok=%v, container known=%v, local in container=%v, sender current=%v previous=%v)\ncase %+v\nstatus %d %q",
-				got, want, sigOK, c.CnrKnown, c.LocalCur, c.SenderCur, c.SenderPrev, c, statusCode(resp), resp.GetStatus().GetMessage())
+			t.Fatalf("storage called %d times, reference says called=%v (signature ok=%v, container known=%v, local in container=%v, sender current=%v previous=%v twin=%v)\ncase %+v\nstatus %d %q",
+				got, want, sigOK, c.CnrKnown, c.LocalCur, c.SenderCur, c.SenderPrev, c.Twin, c, statusCode(resp), resp.GetStatus().GetMessage())
 		}
 		ok := statusCode(resp) == 0
 		if ok != (want && storeErr == nil) {
